@@ -111,6 +111,25 @@ def _movable(v: ast.AST) -> bool:
     return False
 
 
+def _fuse_comprehension(node: ast.AST) -> ast.AST | None:
+    """(E(x) for x in (F(y) for y in W if C) if D(x))   ==>   (E(F(y)) for y in W if C and D(F(y)))
+    (one outer generator over an inner generator expression / list comprehension whose element is a plain load)"""
+    if not isinstance(node, (ast.GeneratorExp, ast.ListComp, ast.SetComp)) or len(node.generators) != 1:
+        return None
+    g = node.generators[0]
+    inner = g.iter
+    if not isinstance(inner, (ast.GeneratorExp, ast.ListComp)) or not isinstance(g.target, ast.Name) or g.is_async or not _movable(inner.elt):
+        return None
+    bound = {y.id for c in inner.generators for y in ast.walk(c.target) if isinstance(y, ast.Name)}
+    if g.target.id in bound:
+        return None
+    sub = _Subst({g.target.id: inner.elt})
+    gens = [copy.deepcopy(c) for c in inner.generators]
+    gens[-1].ifs = list(gens[-1].ifs) + [sub.visit(copy.deepcopy(t)) for t in g.ifs]
+    new = type(node)(elt=sub.visit(copy.deepcopy(node.elt)), generators=gens)
+    return ast.fix_missing_locations(ast.copy_location(new, node))
+
+
 def _fold_bool(t: ast.AST) -> ast.AST:
     if isinstance(t, ast.Compare) and len(t.ops) == 1 and isinstance(t.left, ast.Constant) and isinstance(t.comparators[0], ast.Constant):
         a, b = t.left.value, t.comparators[0].value
@@ -157,6 +176,16 @@ class _Subst(ast.NodeTransformer):
         if isinstance(node.ctx, ast.Load) and node.id in self.m:
             return ast.copy_location(copy.deepcopy(self.m[node.id]), node)
         return node
+
+
+class _SubstNode(ast.NodeTransformer):
+    def __init__(self, old: ast.AST, new: ast.AST) -> None:
+        self.old, self.new = old, new
+
+    def visit(self, node):
+        if node is self.old:
+            return self.new
+        return super().visit(node)
 
 
 class Signatures:
@@ -331,6 +360,7 @@ class Normaliser:
         out: list[ast.stmt] = []
         for st in body:
             out.extend(self.stmt(st))
+        out = self.single_use_generators(out)
         out = self.filtered_loops(out)
         out = self.slice_pops(out)
         out = self.index_reads_then_del(out)
@@ -345,6 +375,64 @@ class Normaliser:
             self.hit("return-then-raise->guard")
             out = out[:-2] + [guard] + list(g.body)
         return out
+
+    def single_use_generators(self, stmts: list[ast.stmt]) -> list[ast.stmt]:
+        """g = (E for x in W if C); return list(f(a, g))   ==>   return list(f(a, (E for x in W if C)))
+        (a generator expression bound to a local that the very next statement consumes once: what that statement evaluates
+        before reaching it are plain loads, and nothing later mentions the local)"""
+        out = list(stmts)
+        i = 0
+        while i + 1 < len(out):
+            a, b = out[i], out[i + 1]
+            if isinstance(a, ast.Assign) and len(a.targets) == 1 and isinstance(a.targets[0], ast.Name) and isinstance(a.value, ast.GeneratorExp) \
+                    and isinstance(b, (ast.Return, ast.Assign, ast.Expr)) and b.value is not None:
+                nm = a.targets[0].id
+                uses = [x for x in ast.walk(b) if isinstance(x, ast.Name) and x.id == nm]
+                later = [x for s_ in out[i + 2:] for x in ast.walk(s_) if isinstance(x, ast.Name) and x.id == nm]
+                if len(uses) == 1 and isinstance(uses[0].ctx, ast.Load) and not later:
+                    # the chain of calls down to the use; everything evaluated before it must be movable
+                    ok = True
+                    cur: ast.AST = b.value
+                    while cur is not uses[0]:
+                        if isinstance(cur, (ast.GeneratorExp, ast.ListComp, ast.SetComp)) and any(x is uses[0] for x in ast.walk(cur.generators[0].iter)):
+                            cur = cur.generators[0].iter   # (the first iterable is what a comprehension evaluates first)
+                            continue
+                        if not isinstance(cur, ast.Call) or cur.keywords or not _movable(cur.func):
+                            ok = False
+                            break
+                        nxt = None
+                        for arg_ in cur.args:
+                            if any(x is uses[0] for x in ast.walk(arg_)):
+                                nxt = arg_
+                                break
+                            if not _movable(arg_):
+                                ok = False
+                        if nxt is None or not ok:
+                            ok = False
+                            break
+                        cur = nxt
+                    if ok:
+                        b2 = _SubstNode(uses[0], a.value).visit(b)
+                        b2 = self._refuse(b2)
+                        self.hit("single-use-generator-inlined")
+                        out[i:i + 2] = [ast.fix_missing_locations(b2)]
+                        continue
+            i += 1
+        return out
+
+    def _refuse(self, st: ast.stmt) -> ast.stmt:
+        n = self
+
+        class F(ast.NodeTransformer):
+            def _c(self_, node):  # noqa: N805
+                self_.generic_visit(node)
+                r = _fuse_comprehension(node)
+                if r is not None:
+                    n.hit("nested-comprehension-fused")
+                    return r
+                return node
+            visit_GeneratorExp = visit_ListComp = visit_SetComp = _c
+        return F().visit(st)
 
     def filtered_loops(self, stmts: list[ast.stmt]) -> list[ast.stmt]:
         """L = [x for x in IT if C]                  for x in IT:
@@ -413,6 +501,10 @@ class Normaliser:
         if isinstance(s0, ast.Call) and isinstance(s0.func, ast.Attribute) and s0.func.attr in ("get", "pop") and isinstance(s0.func.value, ast.Attribute) \
                 and (len(s0.args) == 1 and s0.func.attr == "get" or (len(s0.args) == 2 and isinstance(s0.args[1], ast.Constant) and s0.args[1].value is None)):
             tuple_len = self.tuple_containers.get(s0.func.value.attr)
+        # `X.split(sep, 1)` (str/bytes/re: no repository method of that name) is a list of one or two items
+        split_list = isinstance(s0, ast.Call) and isinstance(s0.func, ast.Attribute) and s0.func.attr in ("split", "rsplit") and not s0.keywords \
+            and not any(s0.func.attr in ms for ms in self.plain_methods.values())
+        split_max1 = split_list and len(s0.args) == 2 and isinstance(s0.args[1], ast.Constant) and s0.args[1].value == 1
         elem_subj: list[ast.expr] | None = None
         bool_elems: set[str] = set()
         elem_tuple_len: dict[str, int] = {}
@@ -521,10 +613,16 @@ class Normaliser:
                         tests.append(r_[0])
                         binds += r_[1]
                     return conj(tests), binds
-                tests: list[ast.expr] = [ast.Call(func=ast.Name(id="isinstance", ctx=ast.Load()),
-                                                  args=[copy.deepcopy(s_), ast.Tuple(elts=[ast.Name(id="tuple", ctx=ast.Load()), ast.Name(id="list", ctx=ast.Load())], ctx=ast.Load())], keywords=[]),
-                                         ast.Compare(left=ast.Call(func=ast.Name(id="len", ctx=ast.Load()), args=[copy.deepcopy(s_)], keywords=[]), ops=[ast.Eq()],
-                                                     comparators=[ast.Constant(value=len(p_.patterns))])]
+                lentest: ast.expr = ast.Compare(left=ast.Call(func=ast.Name(id="len", ctx=ast.Load()), args=[copy.deepcopy(s_)], keywords=[]), ops=[ast.Eq()],
+                                                comparators=[ast.Constant(value=len(p_.patterns))])
+                if s_ is subj and split_max1 and len(p_.patterns) == 1:
+                    # one or two items: "exactly one" is "not two"
+                    lentest.comparators = [ast.Constant(value=2)]  # type: ignore[attr-defined]
+                    lentest = ast.UnaryOp(op=ast.Not(), operand=lentest)
+                tests: list[ast.expr] = [lentest]
+                if not (s_ is subj and split_list):
+                    tests.insert(0, ast.Call(func=ast.Name(id="isinstance", ctx=ast.Load()),
+                                             args=[copy.deepcopy(s_), ast.Tuple(elts=[ast.Name(id="tuple", ctx=ast.Load()), ast.Name(id="list", ctx=ast.Load())], ctx=ast.Load())], keywords=[]))
                 binds = []
                 for i, x in enumerate(p_.patterns):
                     r_ = pat(x, ast.Subscript(value=copy.deepcopy(s_), slice=ast.Constant(value=i), ctx=ast.Load()))
@@ -1208,6 +1306,10 @@ class Normaliser:
             r = self.unmatch(st)
             if r is not None:
                 return r
+        if isinstance(st, ast.For) and not st.orelse and isinstance(st.target, ast.Name):
+            r = self.lazy_call_loop(st)
+            if r is not None:
+                return r
         if isinstance(st, (ast.If, ast.While)):
             r = self.unwalrus(st)
             if r is not None:
@@ -1226,6 +1328,62 @@ class Normaliser:
                 self.hit("inverted-if")
                 st.test, st.body, st.orelse = st.test.operand, st.orelse, st.body
         return [st]
+
+    def lazy_call_loop(self, st: ast.For) -> list[ast.stmt] | None:
+        """for c in iter(F, S): B                          while True: c = F();  if c == S: break;   B
+           for c in takewhile(P, map(F, repeat(A))): B ==> while True: c = F(A); if not P(c): break; B
+        (an endless stream of calls cut by a sentinel or a predicate; `continue` in B re-enters at the call in both forms)"""
+        tgt = st.target.id
+
+        def last(e: ast.AST) -> str:
+            return ast.unparse(e).split(".")[-1]
+
+        def apply(f: ast.AST, args: list[ast.expr]) -> ast.expr | None:
+            if isinstance(f, ast.Lambda):
+                a = f.args
+                if a.vararg or a.kwarg or a.kwonlyargs or a.defaults or len(a.posonlyargs + a.args) != len(args):
+                    return None
+                if not all(_movable(x) for x in args):
+                    return None
+                return _Subst({p_.arg: x for p_, x in zip(a.posonlyargs + a.args, args)}).visit(copy.deepcopy(f.body))
+            if isinstance(f, ast.Name) and f.id == "bool" and len(args) == 1:
+                return args[0]
+            if _movable(f):
+                return ast.Call(func=copy.deepcopy(f), args=args, keywords=[])
+            return None
+
+        def lazy(it: ast.AST):
+            """(call producing the next item, [stop tests on the item])"""
+            if not (isinstance(it, ast.Call) and not it.keywords):
+                return None
+            fn = last(it.func)
+            if fn == "iter" and len(it.args) == 2 and _movable(it.args[1]):
+                c = apply(it.args[0], [])
+                if c is None:
+                    return None
+                return c, [ast.Compare(left=ast.Name(id=tgt, ctx=ast.Load()), ops=[ast.Eq()], comparators=[copy.deepcopy(it.args[1])])]
+            if fn == "map" and len(it.args) >= 2 and all(isinstance(a, ast.Call) and last(a.func) == "repeat" and len(a.args) == 1 and not a.keywords and _movable(a.args[0]) for a in it.args[1:]):
+                c = apply(it.args[0], [copy.deepcopy(a.args[0]) for a in it.args[1:]])
+                return None if c is None else (c, [])
+            if fn == "takewhile" and len(it.args) == 2:
+                inner = lazy(it.args[1])
+                if inner is None:
+                    return None
+                t = apply(it.args[0], [ast.Name(id=tgt, ctx=ast.Load())])
+                if t is None:
+                    return None
+                return inner[0], inner[1] + [_negate(t)]
+            return None
+        r = lazy(st.iter)
+        if r is None or not r[1]:
+            return None
+        call, stops = r
+        body: list[ast.stmt] = [ast.Assign(targets=[ast.Name(id=tgt, ctx=ast.Store())], value=call)]
+        for t in stops:
+            body.append(ast.If(test=t, body=[ast.Break()], orelse=[]))
+        new = ast.While(test=ast.Constant(value=True), body=body + st.body, orelse=[])
+        self.hit("lazy-call-stream-loop->while")
+        return [ast.fix_missing_locations(ast.copy_location(new, st))]
 
     def try_lookup(self, st: ast.Try) -> list[ast.stmt] | None:
         if st.finalbody or len(st.handlers) != 1 or len(st.body) != 1 or not _is_keyerror(st.handlers[0].type) or st.handlers[0].name:
@@ -1337,6 +1495,15 @@ class _Expr(ast.NodeTransformer):
         node.body = self.visit(node.body)
         return node
 
+    def _comp(self, node):
+        self.generic_visit(node)
+        r = _fuse_comprehension(node)
+        if r is not None:
+            self.n.hit("nested-comprehension-fused")
+            return r
+        return node
+    visit_GeneratorExp = visit_ListComp = visit_SetComp = _comp
+
     def visit_Call(self, node: ast.Call):
         self.generic_visit(node)
         f = node.func
@@ -1365,6 +1532,30 @@ class _Expr(ast.NodeTransformer):
             g0 = node.args[1].generators[0]
             self.n.hit("filter(None)->genexp")
             return ast.fix_missing_locations(ast.copy_location(ast.GeneratorExp(elt=node.args[1].elt, generators=[ast.comprehension(target=g0.target, iter=g0.iter, ifs=list(g0.ifs) + [copy.deepcopy(node.args[1].elt)], is_async=0)]), node))
+        # X.__contains__(k)  ==>  k in X
+        if isinstance(f, ast.Attribute) and f.attr == "__contains__" and len(node.args) == 1 and not node.keywords and not isinstance(node.args[0], ast.Starred) and _movable(f.value):
+            self.n.hit("__contains__-call->in")
+            return ast.fix_missing_locations(ast.copy_location(ast.Compare(left=node.args[0], ops=[ast.In()], comparators=[f.value]), node))
+        # filter(P, G) / filterfalse(P, G)  ==>  (e for e in G if [not] P(e))
+        if ast.unparse(f).split(".")[-1] in ("filter", "filterfalse") and not (isinstance(f, ast.Attribute) and not isinstance(f.value, ast.Name)) \
+                and len(node.args) == 2 and not node.keywords and not (isinstance(node.args[0], ast.Constant) and node.args[0].value is None):
+            P = node.args[0]
+            ev_: ast.expr = ast.Name(id="e_h", ctx=ast.Load())
+            test: ast.expr | None = None
+            if isinstance(P, ast.Attribute) and P.attr == "__contains__" and _movable(P.value):
+                test = ast.Compare(left=ev_, ops=[ast.In()], comparators=[P.value])
+            elif isinstance(P, ast.Lambda) and len(P.args.args) == 1 and not (P.args.vararg or P.args.kwarg or P.args.kwonlyargs or P.args.defaults or P.args.posonlyargs):
+                test = _Subst({P.args.args[0].arg: ev_}).visit(copy.deepcopy(P.body))
+            elif isinstance(P, (ast.Name, ast.Attribute)) and _movable(P):
+                test = ev_ if isinstance(P, ast.Name) and P.id == "bool" else ast.Call(func=P, args=[ev_], keywords=[])
+            if test is not None:
+                if ast.unparse(f).split(".")[-1] == "filterfalse":
+                    test = _negate(test)
+                self.n.hit("filter(P)->genexp")
+                new_g = ast.GeneratorExp(elt=ast.Name(id="e_h", ctx=ast.Load()),
+                                         generators=[ast.comprehension(target=ast.Name(id="e_h", ctx=ast.Store()), iter=node.args[1], ifs=[test], is_async=0)])
+                new_g = ast.fix_missing_locations(ast.copy_location(new_g, node))
+                return _fuse_comprehension(new_g) or new_g
         if isinstance(f, ast.Name) and f.id in ("set", "list") and len(node.args) == 1 and not node.keywords and isinstance(node.args[0], ast.GeneratorExp):
             self.n.hit("set(genexp)->comprehension")
             cls_ = ast.SetComp if f.id == "set" else ast.ListComp
